@@ -12,7 +12,7 @@ class FloatPrecision:
     def is_zero(self) -> bool:
         if self.value == 0:
             return True
-        return self.exponent + self.precision - 1 < self.min_exp
+        return self.exponent < self.min_exp
 
     @property
     def is_inf(self) -> bool:
